@@ -146,18 +146,18 @@ Proof.
   - eapply Inv2_other; eauto. discriminate.
 Qed.
 
-Lemma Inv2_init ovrs : Inv2 (init ovrs).
+Lemma Inv2_init ovrs objs : Inv2 (init ovrs objs).
 Proof.
   split; [apply Inv_init|]. split; [reflexivity|]. intros c x Hx Hw. reflexivity.
 Qed.
 
-Lemma mutex_under_atomic_release_l ovrs its s :
-  rrun judge (init ovrs) its = Some s ->
+Lemma mutex_under_atomic_release_l ovrs objs its s :
+  rrun judge (init ovrs objs) its = Some s ->
   live_holders s <= 1 /\ bad s = false /\
   (forall c x g, nth_error (cs s) c = Some x -> alive x = true -> eng x = Some g ->
      exists d, fs s = Some d /\ gen d = g /\ owner d = c).
 Proof.
-  intros H. destruct (Inv2_rrun its (init ovrs) s (Inv2_init ovrs) H) as ((Hex & Hhe & _) & Hb & _).
+  intros H. destruct (Inv2_rrun its (init ovrs objs) s (Inv2_init ovrs objs) H) as ((Hex & Hhe & _) & Hb & _).
   split; [apply excl_holders; auto|]. split; [exact Hb|]. exact (Hex Hb).
 Qed.
 
